@@ -28,13 +28,31 @@ theorem step_sRel2 {s s' : State} {t : Nat} {l : Label} {a : Act} {tl : Option N
 
 theorem step_sParked {s s' : State} {t : Nat} {l : Label} {a : Act} {tl : Option Nat} (h : Inv s) (hp : s.pc t = .sParked a tl)
     (hs : step s t = some (s', l)) : Inv s' := by
-  step_case
+  step_at hp hs
+  cases hsl : s.silent <;> simp only [hsl, if_true, if_false, Bool.false_eq_true] at hs <;>
+    (split at hs <;> (try (cases hs; done)); cases hs; inv_open; inv_rest)
 
 theorem step_sWoke {s s' : State} {t : Nat} {l : Label} {a : Act} {tl : Option Nat} (h : Inv s) (hp : s.pc t = .sWoke a tl)
+    (hs : step s t = some (s', l)) : Inv s' := by
+  step_at hp hs
+  cases hs
+  cases hsl : s.silent
+  · cases tl <;> (inv_open; inv_rest)
+  · inv_open; inv_rest
+
+theorem step_sAlertT {s s' : State} {t : Nat} {l : Label} {a : Act} {x : Nat} (h : Inv s) (hp : s.pc t = .sAlertT a x)
+    (hs : step s t = some (s', l)) : Inv s' := by
+  step_case
+
+theorem step_sAlertLen {s s' : State} {t : Nat} {l : Label} {a : Act} {tl : Option Nat} (h : Inv s) (hp : s.pc t = .sAlertLen a tl)
     (hs : step s t = some (s', l)) : Inv s' := by
   step_case
 
 theorem step_sPost {s s' : State} {t : Nat} {l : Label} {a : Act} (h : Inv s) (hp : s.pc t = .sPost a)
+    (hs : step s t = some (s', l)) : Inv s' := by
+  step_case
+
+theorem step_sAlertNum {s s' : State} {t : Nat} {l : Label} {a : Act} {tl : Option Nat} (h : Inv s) (hp : s.pc t = .sAlertNum a tl)
     (hs : step s t = some (s', l)) : Inv s' := by
   step_case
 
